@@ -44,6 +44,7 @@ import common
 import impl
 from props import accessspec as spec
 from props import filelib
+from props import sigspec
 
 KINDS = ("get", "set", "del")
 
@@ -430,10 +431,10 @@ def declared_sets(node):
 
 class Candidate:
     """one definition in the source that may stand behind a FileIr key."""
-    __slots__ = ("kind", "node", "cls", "lineno")
+    __slots__ = ("kind", "node", "cls", "lineno", "assign")
 
-    def __init__(self, kind, node, cls=None):
-        self.kind, self.node, self.cls = kind, node, cls
+    def __init__(self, kind, node, cls=None, assign=None):
+        self.kind, self.node, self.cls, self.assign = kind, node, cls, assign
         self.lineno = getattr(node, "lineno", 0)
 
 
@@ -496,7 +497,7 @@ def candidates(tree: ast.Module):
                         if s is None:
                             continue
                         for lam in lams:
-                            add(s, Candidate("lambda", lam))
+                            add(s, Candidate("lambda", lam, assign=n))
                         if isinstance(v, ast.Call) and (spec.wcb(spec.spell(v.func)) == "namedtuple" or spec.wcb(spec.spell(v.func)).endswith(".namedtuple")):
                             add(s, Candidate("namedtuple", v))
     return out
@@ -610,6 +611,11 @@ def judge_entry(tree, cands, key_kind, key_name, ir):
             sig = f"phantom-namedtuple-{kind}"
         elif c.kind == "declared":
             sig = f"phantom-declared-{kind}"
+        elif (part := sigspec.only_in_signature(c.node, kind, n, cls=c.cls if c.kind in ("init", "static") else None,
+                                                 assign=c.assign)) is not None:
+            # the name is mentioned by the definition's OWN signature (defaults / annotations / decorators / class header),
+            # which is not part of its body
+            sig = f"entry:{c.kind}:phantom-{kind}:only-in-own-signature:{part}"
         elif kind == "call":
             sig = f"entry:{c.kind}:phantom-call"
         else:
@@ -691,6 +697,138 @@ def write_project(root: Path, files):
         p.write_text(text)
 
 
+def source_call_free(cands, name):
+    """every definition behind the key is a def / lambda / __init__ / static method whose BODY has no call node
+    (so its results are its own IR whatever the implementation answers)."""
+    cs = cands.get(name, [])
+    return bool(cs) and all(c.kind in ("def", "init", "static", "lambda") and
+                            not any(isinstance(n, ast.Call) for n in spec.all_nodes(c.node)) for c in cs)
+
+
+def flush_model(res, model, deferred):
+    """the correspondence half of route (1) for every deferred file, in ONE driver batch."""
+    outs = model.batch([("analyse_file", fc.payload) for _tag, _rel, _src, fc in deferred])
+    for (tag, rel, src, fc), mo in zip(deferred, outs):
+        res.evaluations += 1
+        res.count(f"{tag}:model:" + fc.file_im["outcome"])
+        if mo.get("outcome", "").startswith("root-"):
+            d = f"model root context {mo['outcome']}/{mo.get('exc')} but the real one is ok"
+        else:
+            d = filelib.compare_file(fc.file_im, mo)
+        if d is not None:
+            res.disagreements.append({"case": {"stage": "class-entries/file-analyser", "file": rel, "module": src}, "diff": d[:2000]})
+    del deferred[:]
+
+
+def run_project(res, model, root, files, shape, pi, cli_allowed, tag="cls", always_cli=False, free_by_source=False,
+                nontrivial_kinds=("enum", "static", "init", "namedtuple"), deferred=None):
+    """One project through (1) FileAnalyser vs the Lean model per file, (2) the real pipeline in-process,
+    (3) the CLI (when `cli_allowed` and the project has an enum / namedtuple family, is curated, or `always_cli`),
+    then the source-only oracle on every view. Returns (entries judged, whether the CLI was used).
+    `deferred` (a list): the model half of (1) is postponed — the caller runs `flush_model` once at the end.
+    `free_by_source`: the entries whose `-o ir` / `-o results` output must equal their own IR are chosen by the SOURCE
+    (no call node in the body) instead of by the in-process snapshot."""
+    judged = 0
+    used_cli = False
+    write_project(root, files)
+    res.count(f"{tag}:project:" + shape)
+    trees, cands = {}, {}
+    for rel, src in files.items():
+        trees[rel] = ast.parse(src)
+        cands[rel] = candidates(trees[rel])
+    case_files = {"files": files}
+
+    # ---- (1) per file: real FileAnalyser vs the Lean model (op analyse_file)
+    fcs = {}
+    for rel, src in files.items():
+        fc = filelib.run_case(root, rel, src)
+        fcs[rel] = fc
+        if fc.skipped is not None:
+            res.skipped_outside_fragment += 1
+            res.count(f"{tag}:model:skipped:" + fc.skipped[:40])
+    live = [(tag, rel, files[rel], fc) for rel, fc in fcs.items() if fc.skipped is None and fc.file_im is not None]
+    if deferred is None:
+        flush_model(res, model, live)
+    else:
+        deferred.extend(live)       # the caller flushes (one driver process for the whole stage)
+
+    # ---- (2) the real pipeline in-process
+    snap = pipeline_inprocess(root)
+    res.evaluations += 1
+    res.count(f"{tag}:pipeline:" + snap["outcome"])
+    views = []
+    if snap["outcome"] == "ok":
+        views.append(("in-process", "target.py", snap["target"]))
+        for mod, entries in snap["imports"].items():
+            rel = MODULE_FILE.get(mod)
+            if rel in files:
+                views.append(("in-process:import", rel, entries))
+                res.count(f"{tag}:followed-import:" + mod)
+        # the pipeline's FileIr of a file == the FileAnalyser run of (1) (same real code, two routes)
+        for route, rel, entries in views:
+            fc = fcs.get(rel)
+            if fc is not None and fc.file_im is not None and fc.file_im["outcome"] == "ok":
+                a = [(e["kind"], e["name"], e["ir"]["gets"], e["ir"]["sets"], e["ir"]["dels"]) for e in entries]
+                b = [(k["sym"]["kind"], k["sym"]["name"], sorted(x[0] for x in k["ir"]["gets"]), sorted(x[0] for x in k["ir"]["sets"]),
+                      sorted(x[0] for x in k["ir"]["dels"])) for k in fc.file_im["keys"]]
+                if sorted(a) != sorted(b):
+                    res.count(f"{tag}:pipeline-vs-fileanalyser:differs")
+                    res.violations.append({"signature": "ir-of-a-file-depends-on-the-route:" + route, "case": dict(case_files, file=rel),
+                                           "pipeline": a[:6], "file_analyser": b[:6]})
+
+    def free_names(rel, entries):
+        if free_by_source:
+            return {e["name"] for e in entries if source_call_free(cands[rel], e["name"])}
+        return {e["name"] for e in entries if not e["ir"]["calls"]}
+
+    # ---- (3) the CLI
+    has_family = any(c.kind in ("enum", "namedtuple") for cs in cands.values() for lst in cs.values() for c in lst)
+    if cli_allowed and snap["outcome"] == "ok" and (has_family or shape == "curated" or always_cli):
+        used_cli = True
+        r = cli(root, "ir")
+        res.evaluations += 1
+        res.count(f"{tag}:cli-ir:exit%d" % r["exit"])
+        if r["doc"] is not None:
+            # `-o ir` is printed AFTER result generation, which inlines callees into the IR in place: only the
+            # entries that are call-free at the snapshot point still show their own IR there
+            cs = cli_ir_snapshot(r["doc"])
+            free = free_names("target.py", snap["target"])
+            views.append(("cli-ir:call-free", "target.py", [e for e in cs["target"] if e["name"] in free]))
+            for mod, entries in cs["imports"].items():
+                if MODULE_FILE.get(mod) in files and mod in snap["imports"]:
+                    free = free_names(MODULE_FILE[mod], snap["imports"][mod])
+                    views.append(("cli-ir:import:call-free", MODULE_FILE[mod], [e for e in entries if e["name"] in free]))
+        if pi % 2 == 0 or always_cli:
+            r = cli(root, "results")
+            res.evaluations += 1
+            res.count(f"{tag}:cli-results:exit%d" % r["exit"])
+            if r["doc"] is not None:
+                # call-free entries: the results ARE the own IR
+                free = free_names("target.py", snap["target"])
+                entries = [{"kind": next(e["kind"] for e in snap["target"] if e["name"] == k), "name": k,
+                            "ir": {"gets": v["gets"], "sets": v["sets"], "dels": v["dels"], "calls": []}}
+                           for k, v in r["doc"].items() if k in free]
+                views.append(("cli-results:call-free", "target.py", entries))
+
+    # ---- the oracle on every view
+    for route, rel, entries in views:
+        for e in entries:
+            verdict, bad = judge_entry(trees[rel], cands[rel], e["kind"], e["name"], e["ir"])
+            judged += 1
+            res.evaluations += 1
+            res.count(f"{tag}:entry:{route.split(':')[0]}:{verdict}")
+            n_names = sum(len(e["ir"][k]) for k in ("gets", "sets", "dels", "calls"))
+            if verdict.startswith("justified:") and verdict.split(":")[1] in nontrivial_kinds and n_names >= 1:
+                res.nontrivial.add(common.digest(files[rel] + e["name"]))
+            for v in bad:
+                res.count("verdict:" + v["signature"])
+                res.violations.append(dict(v, case=dict(case_files, file=rel, route=route), reported=e["ir"]))
+            if verdict == "justified:enum":
+                res.sample({"file": rel, "entry": e["name"], "gets": e["ir"]["gets"][:6], "route": route,
+                            "module": files[rel][-600:]}, cap=5)
+    return judged, used_cli
+
+
 def run_stage(res, rng, n_projects, n_cli, model, hostile=0.05):
     """Fills res (evaluations, distribution, disagreements, violations). Returns the number of entries judged."""
     projects = [(dict(f), "curated") for f in CURATED]
@@ -699,108 +837,17 @@ def run_stage(res, rng, n_projects, n_cli, model, hostile=0.05):
         projects.append(g.project())
     judged = 0
     cli_budget = n_cli
+    deferred = []
     tmp = Path(tempfile.mkdtemp(prefix="rattr-c02-cls-"))
     try:
         for pi, (files, shape) in enumerate(projects):
             root = tmp / f"p{pi}"
             root.mkdir()
-            write_project(root, files)
-            res.count("cls:project:" + shape)
-            trees, cands = {}, {}
-            for rel, src in files.items():
-                trees[rel] = ast.parse(src)
-                cands[rel] = candidates(trees[rel])
-            case_files = {"files": files}
-
-            # ---- (1) per file: real FileAnalyser vs the Lean model (op analyse_file)
-            fcs = {}
-            for rel, src in files.items():
-                fc = filelib.run_case(root, rel, src)
-                fcs[rel] = fc
-                if fc.skipped is not None:
-                    res.skipped_outside_fragment += 1
-                    res.count("cls:model:skipped:" + fc.skipped[:40])
-            live = [(rel, fc) for rel, fc in fcs.items() if fc.skipped is None and fc.file_im is not None]
-            outs = model.batch([("analyse_file", fc.payload) for _rel, fc in live])
-            for (rel, fc), mo in zip(live, outs):
-                res.evaluations += 1
-                res.count("cls:model:" + fc.file_im["outcome"])
-                if mo.get("outcome", "").startswith("root-"):
-                    d = f"model root context {mo['outcome']}/{mo.get('exc')} but the real one is ok"
-                else:
-                    d = filelib.compare_file(fc.file_im, mo)
-                if d is not None:
-                    res.disagreements.append({"case": {"stage": "class-entries/file-analyser", "file": rel, "module": files[rel]}, "diff": d[:2000]})
-
-            # ---- (2) the real pipeline in-process
-            snap = pipeline_inprocess(root)
-            res.evaluations += 1
-            res.count("cls:pipeline:" + snap["outcome"])
-            views = []
-            if snap["outcome"] == "ok":
-                views.append(("in-process", "target.py", snap["target"]))
-                for mod, entries in snap["imports"].items():
-                    rel = MODULE_FILE.get(mod)
-                    if rel in files:
-                        views.append(("in-process:import", rel, entries))
-                        res.count("cls:followed-import:" + mod)
-                # the pipeline's FileIr of a file == the FileAnalyser run of (1) (same real code, two routes)
-                for route, rel, entries in views:
-                    fc = fcs.get(rel)
-                    if fc is not None and fc.file_im is not None and fc.file_im["outcome"] == "ok":
-                        a = [(e["kind"], e["name"], e["ir"]["gets"], e["ir"]["sets"], e["ir"]["dels"]) for e in entries]
-                        b = [(k["sym"]["kind"], k["sym"]["name"], sorted(x[0] for x in k["ir"]["gets"]), sorted(x[0] for x in k["ir"]["sets"]),
-                              sorted(x[0] for x in k["ir"]["dels"])) for k in fc.file_im["keys"]]
-                        if sorted(a) != sorted(b):
-                            res.count("cls:pipeline-vs-fileanalyser:differs")
-                            res.violations.append({"signature": "ir-of-a-file-depends-on-the-route:" + route, "case": dict(case_files, file=rel),
-                                                   "pipeline": a[:6], "file_analyser": b[:6]})
-
-            # ---- (3) the CLI
-            has_family = any(c.kind in ("enum", "namedtuple") for cs in cands.values() for lst in cs.values() for c in lst)
-            if cli_budget > 0 and snap["outcome"] == "ok" and (has_family or shape == "curated"):
+            j, used = run_project(res, model, root, files, shape, pi, cli_budget > 0, deferred=deferred)
+            judged += j
+            if used:
                 cli_budget -= 1
-                r = cli(root, "ir")
-                res.evaluations += 1
-                res.count("cls:cli-ir:exit%d" % r["exit"])
-                if r["doc"] is not None:
-                    # `-o ir` is printed AFTER result generation, which inlines callees into the IR in place: only the
-                    # entries that are call-free at the snapshot point still show their own IR there
-                    cs = cli_ir_snapshot(r["doc"])
-                    free = {e["name"] for e in snap["target"] if not e["ir"]["calls"]}
-                    views.append(("cli-ir:call-free", "target.py", [e for e in cs["target"] if e["name"] in free]))
-                    for mod, entries in cs["imports"].items():
-                        if MODULE_FILE.get(mod) in files and mod in snap["imports"]:
-                            free = {e["name"] for e in snap["imports"][mod] if not e["ir"]["calls"]}
-                            views.append(("cli-ir:import:call-free", MODULE_FILE[mod], [e for e in entries if e["name"] in free]))
-                if pi % 2 == 0:
-                    r = cli(root, "results")
-                    res.evaluations += 1
-                    res.count("cls:cli-results:exit%d" % r["exit"])
-                    if r["doc"] is not None:
-                        # call-free entries: the results ARE the own IR
-                        free = {e["name"] for e in snap["target"] if not e["ir"]["calls"]}
-                        entries = [{"kind": next(e["kind"] for e in snap["target"] if e["name"] == k), "name": k,
-                                    "ir": {"gets": v["gets"], "sets": v["sets"], "dels": v["dels"], "calls": []}}
-                                   for k, v in r["doc"].items() if k in free]
-                        views.append(("cli-results:call-free", "target.py", entries))
-
-            # ---- the oracle on every view
-            for route, rel, entries in views:
-                for e in entries:
-                    verdict, bad = judge_entry(trees[rel], cands[rel], e["kind"], e["name"], e["ir"])
-                    judged += 1
-                    res.evaluations += 1
-                    res.count(f"cls:entry:{route.split(':')[0]}:{verdict}")
-                    n_names = sum(len(e["ir"][k]) for k in ("gets", "sets", "dels", "calls"))
-                    if verdict.startswith("justified:") and verdict.split(":")[1] in ("enum", "static", "init", "namedtuple") and n_names >= 1:
-                        res.nontrivial.add(common.digest(files[rel] + e["name"]))
-                    for v in bad:
-                        res.count("verdict:" + v["signature"])
-                        res.violations.append(dict(v, case=dict(case_files, file=rel, route=route), reported=e["ir"]))
-                    if verdict == "justified:enum":
-                        res.sample({"file": rel, "entry": e["name"], "gets": e["ir"]["gets"][:6], "route": route,
-                                    "module": files[rel][-600:]}, cap=5)
+        flush_model(res, model, deferred)
     finally:
         shutil.rmtree(tmp, ignore_errors=True)
     return judged
